@@ -113,11 +113,12 @@ PROPS["C01"] = {
     "engine": "rapidcheck+libFuzzer",
     "technique": "property-based testing (rapidcheck) and libFuzzer: metamorphic prefix-consistency (incremental vs fresh one-shot parser) under exhaustive single cuts + byte-wise + sampled multi-cuts, outcome-independence over read boundaries, and an absolute AST oracle for completion and content",
     "level_text": "Generated messages x exhaustive single cuts and byte-by-byte delivery per message, sampled multi-cut sets; the AST oracle is independent of the parser. Exploration: messages are sampled, the 2^(n-1) segmentations are covered exhaustively only for the single-cut and all-cut members.",
-    "level_note": "Pipelining (two messages in one read) is outside the domain; which error code a malformed message gets is not judged, only that it is the same under every segmentation; no parse() call after Done/error (callers reset).",
+    "level_note": "The last stage is the server-level confirmation (harness/c0134_server.cc): the same generated requests written in generated segmentations to a live endpoint whose handler returns a hash of what it parsed, compared with a fresh one-shot in-process parse. Pipelining (two messages in one read) is outside the domain; which error code a malformed message gets is not judged, only that it is the same under every segmentation; no parse() call after Done/error (callers reset).",
     "assumptions": ["a hang is detected by a 10 s watchdog on work that takes microseconds, and re-run 3x before it is reported"],
-    "quick": {"stages": [{"kind": "replay"}, {"kind": "rc", "procs": 8, "cases": 1200, "maxlen": 900}]},
+    "quick": {"stages": [{"kind": "replay"}, {"kind": "rc", "procs": 8, "cases": 1200, "maxlen": 900}, {"kind": "rc", "source": "c0134_server.cc", "procs": 4, "cases": 150, "maxlen": 1200}]},
     "thorough": {"stages": [{"kind": "replay"}, {"kind": "rc", "procs": 16, "cases": 12000, "maxlen": 1400},
-                            {"kind": "fuzz", "workers": 16, "seconds": 240, "maxlen": 1400}]},
+                            {"kind": "fuzz", "workers": 16, "seconds": 240, "maxlen": 1400},
+                            {"kind": "rc", "source": "c0134_server.cc", "procs": 6, "cases": 3000, "maxlen": 1600}]},
 }
 
 PROPS["C03"] = {
@@ -133,11 +134,12 @@ PROPS["C03"] = {
     "engine": "libFuzzer+rapidcheck",
     "technique": "coverage-guided fuzzing (libFuzzer, ASan+UBSan+container annotations) and rapidcheck on one case function with structure-aware and byte-level decoders; oracle = sanitizers + termination watchdog + allocator-hook memory bound + exception-type check",
     "level_text": "Generated/fuzzed byte sequences x segmentations; the oracle asserts safety, termination and the memory bound only, so it cannot be fooled by what the right answer is. Exploration only.",
-    "level_note": "Server-level liveness (a second connection keeps being answered) is exercised by the socket-level checks C08/C14, not here. ASan does not intercept every libc routine (hence the guard-page buffers).",
+    "level_note": "The last stage is server-level (harness/c0134_server.cc): arbitrary bytes and near-well-formed requests in arbitrary segments to a live endpoint; whatever comes back must be well-formed 2xx/4xx/5xx responses (or nothing) and a second connection must still be answered. ASan does not intercept every libc routine (hence the guard-page buffers).",
     "assumptions": ["ASan/UBSan see every memory error in instrumented code; uninstrumented libc reads past a buffer are caught only where the buffer ends at the guard page"],
-    "quick": {"stages": [{"kind": "replay"}, {"kind": "rc", "procs": 8, "cases": 12000, "maxlen": 1200}]},
+    "quick": {"stages": [{"kind": "replay"}, {"kind": "rc", "procs": 8, "cases": 12000, "maxlen": 1200}, {"kind": "rc", "source": "c0134_server.cc", "procs": 4, "cases": 200, "maxlen": 1200}]},
     "thorough": {"stages": [{"kind": "replay"}, {"kind": "rc", "procs": 8, "cases": 60000, "maxlen": 2000},
-                            {"kind": "fuzz", "workers": 16, "seconds": 360, "maxlen": 4096}]},
+                            {"kind": "fuzz", "workers": 16, "seconds": 360, "maxlen": 4096},
+                            {"kind": "rc", "source": "c0134_server.cc", "procs": 6, "cases": 4000, "maxlen": 1600}]},
 }
 
 PROPS["C04"] = {
@@ -151,11 +153,12 @@ PROPS["C04"] = {
     "engine": "rapidcheck+libFuzzer",
     "technique": "property-based testing (rapidcheck) and libFuzzer over generated message histories: differential oracle reused-parser vs fresh-parser after every feed (stateful, whole history shrinks as one value)",
     "level_text": "Generated histories with a differential oracle (same element, same segmentation, fresh parser). Exploration only.",
-    "level_note": "The harness replays the reset discipline of Http::Handler::onInput and of the client's handleResponsePacket/handleError by hand (documented in the harness); pipelined requests are outside the domain. The socket-level confirmation is part of C15/C14.",
+    "level_note": "The harness replays the reset discipline of Http::Handler::onInput and of the client's handleResponsePacket/handleError by hand (documented in the harness); pipelined requests are outside the domain. The last stage is the server-level confirmation (harness/c0134_server.cc): the k-th request on a keep-alive connection of a live endpoint - also right after a 413 - must hash like a fresh one-shot parse; the client side is exercised by C15.",
     "assumptions": ["the hand-written reset discipline in the harness matches the real callers (re-read when src/common/http.cc or src/client/client.cc change)"],
-    "quick": {"stages": [{"kind": "replay"}, {"kind": "rc", "procs": 8, "cases": 8000, "maxlen": 1600}]},
+    "quick": {"stages": [{"kind": "replay"}, {"kind": "rc", "procs": 8, "cases": 8000, "maxlen": 1600}, {"kind": "rc", "source": "c0134_server.cc", "procs": 4, "cases": 150, "maxlen": 1200}]},
     "thorough": {"stages": [{"kind": "replay"}, {"kind": "rc", "procs": 16, "cases": 80000, "maxlen": 2400},
-                            {"kind": "fuzz", "workers": 16, "seconds": 240, "maxlen": 2400}]},
+                            {"kind": "fuzz", "workers": 16, "seconds": 240, "maxlen": 2400},
+                            {"kind": "rc", "source": "c0134_server.cc", "procs": 6, "cases": 3000, "maxlen": 1600}]},
 }
 
 PROPS["C10"] = {
